@@ -28,8 +28,8 @@ ASSUMPTIONS = ["network, clock, executor and event loop are simulated (sim/); Cl
                "scheduler, reconnection handlers are the real classes",
                "the connection class is subclassed only to log when (and on which virtual thread) a connection attempt starts",
                "quiescence = 12 virtual seconds after shutdown (connect delay 0.5 s, reconnection delay 1 s, connect_timeout 5 s)",
-               "Cluster.sessions (a WeakSet iterated in memory-address order) is replaced by an insertion-ordered set so that a "
-               "case replays identically"]
+               "Cluster.sessions (a WeakSet iterated in memory-address order) is replaced by an insertion-ordered set and executor futures hash by creation number "
+               "(the driver keeps them in sets and blocks on whichever the set yields first) so that a case replays identically"]
 
 ADV = [0.1, 0.3, 0.5, 0.6, 1.0, 1.2, 1.6]
 
@@ -114,6 +114,7 @@ def _run(case, ctx, sim):
                                reconnection_policy=ConstantReconnectionPolicy(1.0, max_attempts=None),
                                connection_class=LoggedConnection, **kw)
     S.deterministic_sessions(cluster)
+    S.deterministic_futures(sim)
     S.fixed_random(sim, [0.0])
 
     sessions = []
@@ -218,13 +219,27 @@ def _run(case, ctx, sim):
     ctx.nontrivial(bool(busy))
 
     def kind_of(c):
+        """[who opened it, state of the session whose pool holds it] + phase text for the message"""
+        opener, phase = "unknown", "unknown"
         for r in starts:
             if r[3] is c:
-                phase = ("opened-before-shutdown" if r[0] < t_call and c.connected_event.is_set() and
-                         not any(b is r for b in busy) else
-                         "in-progress-at-shutdown" if any(b is r for b in busy) else "started-after-shutdown-call")
-                return [str(r[2]), phase]
-        return ["unknown", "unknown"]
+                opener = str(r[2])
+                phase = ("in progress when shutdown was called" if any(b is r for b in busy) else
+                         "opened before shutdown was called" if r[0] < t_call else "started after shutdown was called")
+        owner = "no-owner"
+        seen = []
+        for s in list(tuple(cluster.sessions)) + sessions:
+            if any(s is x for x in seen):
+                continue
+            seen.append(s)
+            for pool in list(s._pools.values()):
+                if any(pc is c for pc in pool.get_connections()):
+                    owner = ("session-shut-down" if s.is_shutdown else "session-never-shut-down") + \
+                        ("" if s in cluster.sessions else "-unregistered")
+        return [opener, owner], phase
+
+    def still_connecting(c):
+        return any(r[3] is None for r in starts) and not any(r[3] is c for r in starts)
 
     if not sd.done:
         ctx.fail(["C45.shutdown-hangs", target], "%s.shutdown() has not returned 12 virtual seconds after it was called "
@@ -268,18 +283,19 @@ def _run(case, ctx, sim):
                         allowed.add(id(c))
         for c in cluster.control_connection.get_connections():
             allowed.add(id(c))
-        for c in net.conns:
-            if not c.is_closed and id(c) not in allowed:
-                ctx.fail(["C45.leak", "session"] + kind_of(c),
-                         "12 s after Session.shutdown() returned %r is open and belongs neither to the control connection "
-                         "nor to a live session's pool" % (c,))
-                break
         for pool in list(victim._pools.values()):
             for c in pool.get_connections():
-                if c is not None and not c.is_closed:
-                    ctx.fail(["C45.leak", "session", "pool-of-shut-down-session"] + kind_of(c),
-                             "the shut-down session still has a pool with the open connection %r" % (c,))
-                    break
+                if c is not None and not c.is_closed and not ctx._failures:
+                    feats, phase = kind_of(c)
+                    ctx.fail(["C45.leak", "session"] + feats,
+                             "12 s after Session.shutdown() returned the shut-down session has a pool with the open "
+                             "connection %r (%s)" % (c, phase))
+        for c in net.conns:
+            if not c.is_closed and id(c) not in allowed and not still_connecting(c) and not ctx._failures:
+                feats, phase = kind_of(c)
+                ctx.fail(["C45.leak", "session"] + feats,
+                         "12 s after Session.shutdown() returned %r is open and belongs neither to the control connection "
+                         "nor to a live session's pool (%s)" % (c, phase))
         if not ctx._failures:
             refused(victim, "session")
         # finally the cluster
@@ -301,9 +317,10 @@ def _run(case, ctx, sim):
     # ---- after Cluster.shutdown(): every socket closed, nothing new started, no work accepted
     for c in net.conns:
         if not c.is_closed:
-            ctx.fail(["C45.leak", "cluster"] + kind_of(c),
-                     "12 s after Cluster.shutdown() returned %r is still open (%s)" % (c, "control connection" if
-                                                                                     c.is_control_connection else "pool/other"))
+            feats, phase = kind_of(c)
+            ctx.fail(["C45.leak", "cluster"] + feats,
+                     "12 s after Cluster.shutdown() returned %r is still open (%s; %s)" % (
+                         c, "control connection" if c.is_control_connection else "not a control connection", phase))
             break
     later = starts[ret.get("starts", len(starts)):]
     if later:
@@ -338,7 +355,7 @@ def _run(case, ctx, sim):
         ctx.fail(["C45.connect-after-shutdown", "connect()"], "connect() after shutdown opened connections")
     for c in net.conns:
         if not c.is_closed and not ctx._failures:
-            ctx.fail(["C45.leak", "cluster", "after-refused-work"] + kind_of(c), "%r is open at the very end" % (c,))
+            ctx.fail(["C45.leak", "cluster", "after-refused-work"] + kind_of(c)[0], "%r is open at the very end" % (c,))
     for name, e in world.actor_errors:
         ctx.fail(["C45.thread-error", type(e).__name__], "virtual thread %s died with %r" % (name, e))
         break
